@@ -62,6 +62,42 @@ def place_fields_deep(fn, p, hops=4):
     return names
 
 
+def field_leaf_names(fn, operand, hops=8):
+    """names of the last named field of every place the scalar `operand` is (transitively) copied from; None for a leaf that is
+    not a field read (call result, arithmetic, constant, parameter)"""
+    out = set()
+    seen = set()
+    work = [(operand, hops)]
+    while work:
+        o, h = work.pop()
+        p = op_place(o) if isinstance(o, dict) else [o, []]
+        if p is None:
+            out.add(None)
+            continue
+        names = [n for n in place_fields(p) if not n.isdigit()]
+        if names:
+            out.add(names[-1])
+            continue
+        if p[0] in seen or h <= 0:
+            continue
+        seen.add(p[0])
+        ds = [x for x in fn.defs().get(p[0], []) if x[2] in ('assign', 'call', 'arg', 'partial')]
+        if not ds:
+            out.add(None)
+        for (bb, si, kind, payload) in ds:
+            if kind == 'assign' and payload['k'] == 'use':
+                work.append((payload['o'], h - 1))
+            elif kind == 'assign' and payload['k'] == 'ref' :
+                names = [n for n in place_fields(payload['p']) if not n.isdigit()]
+                if names:
+                    out.add(names[-1])
+                else:
+                    work.append(({'c': payload['p']}, h - 1))
+            else:
+                out.add(None)
+    return out
+
+
 def place_str(p):
     s = '_%d' % p[0]
     for e in p[1]:
@@ -1855,3 +1891,38 @@ def real_yields(prog, f):
         if a is None or await_may_suspend(prog, a):
             out.add(y)
     return out
+
+
+def scalar_leaves(prog, f, operand, depth=4, out=None):
+    """fields / constants / opaque calls a scalar expression is computed from (through arithmetic, comparisons, in-crate helpers)"""
+    if out is None:
+        out = set()
+    for o in origins(f, operand, stop_fields=True):
+        if o.kind in ('binop', 'unop'):
+            for side in ('a', 'b', 'o'):
+                if side in o.data:
+                    scalar_leaves(prog, f, o.data[side], depth, out)
+        elif o.kind == 'field':
+            out.add(('field', o.data[1]))
+        elif o.kind == 'const':
+            k = o.data
+            out.add(('const', k.get('int') if isinstance(k, dict) and 'int' in k else str(k)[:30]))
+        elif o.kind == 'call':
+            c = o.data
+            tg = [t for t in prog.resolve(c) if t in prog.fns]
+            if tg and depth > 0:
+                for t in tg:
+                    g = prog.fns[t]
+                    scalar_leaves(prog, g, 0, depth - 1, out)
+            elif c.name in ('saturating_sub', 'checked_sub', 'wrapping_sub', 'unwrap_or', 'unwrap_or_default', 'min', 'max', 'cmp', 'ge', 'le', 'gt', 'lt', 'eq', 'ne', 'is_ge', 'is_le', 'is_gt', 'is_lt', 'is_eq'):
+                for a in c.args:
+                    scalar_leaves(prog, f, a, depth, out)
+            else:
+                out.add(('call', c.name))
+        elif o.kind in ('arg', 'upvar'):
+            continue
+        else:
+            out.add((o.kind, str(o.data)[:30]))
+    return out
+
+
